@@ -148,6 +148,16 @@ def val_eq(m, a, b):
     if isinstance(a, SetV) and isinstance(b, SetV):
         if len(a.items) != len(b.items):
             return False
+        def hk(x):
+            x = m.strip(x)
+            if isinstance(x, NDT) and not is_sym(x.day) and not is_sym(x.sec): return ("ndt", x.day, x.sec)
+            if isinstance(x, Str): return ("str", x.s)
+            if isinstance(x, Enum) and not x.fields and not is_sym(x.idx): return ("enum", x.name, x.idx)
+            if isinstance(x, int) and not isinstance(x, bool): return ("int", x)
+            return None
+        ka, kb = [hk(x) for x in a.items], [hk(x) for x in b.items]
+        if all(k is not None for k in ka) and all(k is not None for k in kb):
+            return set(ka) == set(kb)
         r = True
         for x in a.items:
             c = False
